@@ -31,6 +31,14 @@ def main():
     except ModuleNotFoundError:
         print(f'no check for {args.pid}', file=sys.stderr)
         sys.exit(2)
+    # a check that does not finish is an infrastructure failure (exit 2), never a verdict
+    import signal
+
+    def _timeout(signum, frame):
+        print(f'INFRA-ERROR {args.pid}: timeout', file=sys.stderr)
+        os._exit(2)
+    signal.signal(signal.SIGALRM, _timeout)
+    signal.alarm(int(os.environ.get('VERIF_TIMEOUT', '1500' if args.tier == 'quick' else '14400')))
     ctx = common.Ctx(args.pid, args.tier, seed, level=getattr(mod, 'LEVEL', 'proof'))
     try:
         if args.replay:
